@@ -1,3 +1,155 @@
 import VpnCloud.Model.PeerCrypto
+import VpnCloud.Spec.C06
+import VpnCloud.Proofs.Lemmas.NegoLemmas
+/-
+  C06 — cipher negotiation: the model of `select_algorithm` computes the declarative reference
+  `selectRef`, which is symmetric, independent of list order, chooses plain iff both sides enabled it,
+  fails iff no cipher is shared, and otherwise picks the common cipher whose slower side is fastest.
+-/
 namespace VpnCloud.Proofs.C06
+open VpnCloud VpnCloud.Init VpnCloud.Spec.C06 VpnCloud.Proofs.NegoLemmas
+
+/-- the model of `select_algorithm` computes the declarative reference (for lists without duplicate ciphers);
+    only `NoDup own` is used: the peer's list is looked up with `find`, exactly as `speedOf` does -/
+theorem select_spec (own peer : Algos) (ho : NoDup own) (hp : NoDup peer) :
+    selectAlgorithm own peer = (match selectRef own peer with
+      | .plain => .ok none | .cipher c => .ok (some c) | .fail => .error .cryptoInitFatal) := by
+  have _ := hp
+  by_cases hb : own.allowUnencrypted = true ∧ peer.allowUnencrypted = true
+  · rw [selectAlgorithm_plain _ _ hb, selectRef_plain _ _ hb]
+  · have hm : ∀ z, z ∈ cands own peer ↔ z ∈ common own peer := fun z => mem_cands ho
+    rcases selectAlgorithm_not_plain own peer hb with ⟨hc, e⟩ | ⟨best, hmax, e⟩
+    · rcases selectRef_not_plain own peer hb with ⟨_, e'⟩ | ⟨best', hmax', _⟩
+      · rw [e, e']
+      · have := (hm _).2 hmax'.1
+        rw [hc] at this; simp at this
+    · rcases selectRef_not_plain own peer hb with ⟨hc', _⟩ | ⟨best', hmax', e'⟩
+      · have := (hm _).1 hmax.1
+        rw [hc'] at this; simp at this
+      · rw [e, e', isMax_unique hm hmax hmax']
+
+/-- the reference is symmetric: both ends select the same -/
+theorem selectRef_symm (a b : Algos) : selectRef a b = selectRef b a := by
+  unfold selectRef
+  rw [common_symm a b, Bool.and_comm]
+
+theorem select_symm (a b : Algos) (ha : NoDup a) (hb : NoDup b) : selectAlgorithm a b = selectAlgorithm b a := by
+  rw [select_spec a b ha hb, select_spec b a hb ha, selectRef_symm]
+
+/-- `selectRef` depends on the lists only through `speedOf` -/
+theorem selectRef_congr (a a' b : Algos) (hs : ∀ c, speedOf a c = speedOf a' c)
+    (hu : a.allowUnencrypted = a'.allowUnencrypted) : selectRef a b = selectRef a' b := by
+  have hc : common a b = common a' b := by
+    unfold common
+    congr 1
+    funext c
+    rw [hs c]
+  unfold selectRef
+  rw [hc, hu]
+
+/-- list order is irrelevant -/
+theorem selectRef_perm (a a' b : Algos) (h : a.speeds.Perm a'.speeds) (hu : a.allowUnencrypted = a'.allowUnencrypted) (ha : NoDup a) :
+    selectRef a b = selectRef a' b :=
+  selectRef_congr a a' b (speedOf_perm h ha) hu
+
+/-- unencrypted operation only if both enabled it -/
+theorem plain_iff_both (a b : Algos) : selectRef a b = .plain ↔ (a.allowUnencrypted = true ∧ b.allowUnencrypted = true) := by
+  constructor
+  · intro h
+    by_cases hb : a.allowUnencrypted = true ∧ b.allowUnencrypted = true
+    · exact hb
+    · rcases selectRef_not_plain a b hb with ⟨_, e⟩ | ⟨_, _, e⟩ <;> rw [e] at h <;> cases h
+  · exact selectRef_plain a b
+
+/-- the handshake fails cleanly iff they share no cipher (and did not both enable plain) -/
+theorem fail_iff_none_common (a b : Algos) :
+    selectRef a b = .fail ↔ (¬ (a.allowUnencrypted = true ∧ b.allowUnencrypted = true) ∧ ∀ c, speedOf a c = none ∨ speedOf b c = none) := by
+  constructor
+  · intro h
+    by_cases hb : a.allowUnencrypted = true ∧ b.allowUnencrypted = true
+    · rw [selectRef_plain a b hb] at h; cases h
+    · refine ⟨hb, ?_⟩
+      rcases selectRef_not_plain a b hb with ⟨hc, _⟩ | ⟨_, _, e⟩
+      · exact common_eq_nil.1 hc
+      · rw [e] at h; cases h
+  · rintro ⟨hb, hn⟩
+    rcases selectRef_not_plain a b hb with ⟨_, e⟩ | ⟨best, hmax, _⟩
+    · exact e
+    · have := hmax.1
+      rw [common_eq_nil.2 hn] at this; simp at this
+
+/-- the selected cipher is common to both and its slower side is fastest among the common ones -/
+theorem selected_is_best (a b : Algos) (c : Cipher) (h : selectRef a b = .cipher c) :
+    ∃ x y, speedOf a c = some x ∧ speedOf b c = some y ∧
+      ∀ c' x' y', speedOf a c' = some x' → speedOf b c' = some y' → min x' y' ≤ min x y := by
+  by_cases hb : a.allowUnencrypted = true ∧ b.allowUnencrypted = true
+  · rw [selectRef_plain a b hb] at h; cases h
+  · rcases selectRef_not_plain a b hb with ⟨_, e⟩ | ⟨best, hmax, e⟩
+    · rw [e] at h; cases h
+    · rw [e] at h
+      injection h with h
+      subst h
+      obtain ⟨x, y, hx, hy, hz⟩ := mem_common.1 hmax.1
+      refine ⟨x, y, hx, hy, ?_⟩
+      intro c' x' y' hx' hy'
+      have hm : (c', min x' y') ∈ common a b := mem_common.2 ⟨x', y', hx', hy', rfl⟩
+      have := lexle_snd (hmax.2 _ hm)
+      rw [hz] at this
+      exact this
+
+/-! ### strengthening: the tie-break, and completeness of the choice -/
+
+/-- among common ciphers with the same (best) slower-side speed, the one with the highest wire id is selected -/
+theorem selected_tiebreak (a b : Algos) (c : Cipher) (h : selectRef a b = .cipher c) :
+    ∀ c' x y x' y', speedOf a c = some x → speedOf b c = some y → speedOf a c' = some x' → speedOf b c' = some y' →
+      min x' y' = min x y → c'.wireId ≤ c.wireId := by
+  intro c' x y x' y' hx hy hx' hy' heq
+  by_cases hb : a.allowUnencrypted = true ∧ b.allowUnencrypted = true
+  · rw [selectRef_plain a b hb] at h; cases h
+  · rcases selectRef_not_plain a b hb with ⟨_, e⟩ | ⟨best, hmax, e⟩
+    · rw [e] at h; cases h
+    · rw [e] at h
+      injection h with h
+      subst h
+      obtain ⟨x0, y0, hx0, hy0, hz⟩ := mem_common.1 hmax.1
+      rw [hx] at hx0; rw [hy] at hy0
+      injection hx0 with hx0; injection hy0 with hy0
+      subst hx0; subst hy0
+      have hm : (c', min x' y') ∈ common a b := mem_common.2 ⟨x', y', hx', hy', rfl⟩
+      have := hmax.2 _ hm
+      unfold lexle at this
+      simp only at this
+      omega
+
+/-! ### non-vacuity and the role of the hypotheses -/
+
+private def A1 : Algos := ⟨[(.aes128, 100), (.chacha, 300)], false⟩
+private def A2 : Algos := ⟨[(.chacha, 200), (.aes256, 500), (.aes128, 250)], true⟩
+
+example : NoDup A1 ∧ NoDup A2 := by unfold NoDup; decide
+example : selectRef A1 A2 = .cipher .chacha := by decide
+example : selectAlgorithm A1 A2 = .ok (some .chacha) := rfl
+example : selectAlgorithm A2 A1 = .ok (some .chacha) := rfl
+example : selectRef ⟨[], true⟩ A2 = .plain := by decide
+example : selectRef ⟨[(.aes256, 1)], false⟩ A1 = .fail := by decide
+example : selectAlgorithm ⟨[(.aes256, 1)], false⟩ A1 = .error .cryptoInitFatal := rfl
+/-- a tie in the slower-side speed is broken by the wire id, on both sides alike -/
+example : selectAlgorithm ⟨[(.aes128, 5), (.aes256, 5)], false⟩ ⟨[(.aes256, 7), (.aes128, 9)], false⟩ = .ok (some .aes256) ∧
+          selectAlgorithm ⟨[(.aes256, 7), (.aes128, 9)], false⟩ ⟨[(.aes128, 5), (.aes256, 5)], false⟩ = .ok (some .aes256) := ⟨rfl, rfl⟩
+
+/-- `NoDup own` is needed in `select_spec`: with a duplicate entry the model uses every entry of its own list,
+    the reference (like the peer-side lookup `find`) only the first -/
+example : selectAlgorithm ⟨[(.aes128, 1), (.aes128, 9), (.aes256, 5)], false⟩ ⟨[(.aes128, 9), (.aes256, 5)], false⟩ = .ok (some .aes128) ∧
+          selectRef ⟨[(.aes128, 1), (.aes128, 9), (.aes256, 5)], false⟩ ⟨[(.aes128, 9), (.aes256, 5)], false⟩ = .cipher .aes256 :=
+  ⟨rfl, by decide⟩
+/-- and in `select_symm`: with that duplicate the two ends disagree (aes128 on one side, aes256 on the other) -/
+example : selectAlgorithm ⟨[(.aes128, 1), (.aes128, 9), (.aes256, 5)], false⟩ ⟨[(.aes128, 9), (.aes256, 5)], false⟩ = .ok (some .aes128) ∧
+          selectAlgorithm ⟨[(.aes128, 9), (.aes256, 5)], false⟩ ⟨[(.aes128, 1), (.aes128, 9), (.aes256, 5)], false⟩ = .ok (some .aes256) :=
+  ⟨rfl, rfl⟩
+/-- `NoDup a` is needed in `selectRef_perm`: swapping the duplicate entries changes the result -/
+example : selectRef ⟨[(.aes128, 1), (.aes128, 9), (.aes256, 5)], false⟩ ⟨[(.aes128, 9), (.aes256, 5)], false⟩ = .cipher .aes256 ∧
+          selectRef ⟨[(.aes128, 9), (.aes128, 1), (.aes256, 5)], false⟩ ⟨[(.aes128, 9), (.aes256, 5)], false⟩ = .cipher .aes128 ∧
+          [(Cipher.aes128, 1), (Cipher.aes128, 9), (Cipher.aes256, 5)].Perm [(.aes128, 9), (.aes128, 1), (.aes256, 5)] :=
+  ⟨by decide, by decide, List.Perm.swap _ _ _⟩
+
 end VpnCloud.Proofs.C06
